@@ -44,7 +44,7 @@ impl Randomness {
 //@end
 }
 
-//@spec ipa_spec
+//@spec scp_spec ipa_spec
 pub struct InnerProductArgPC;
 impl InnerProductArgPC {
     // compute_random_oracle_challenge loops over a hash until from_random_bytes succeeds: taken by contract (deterministic function of the bytes)
@@ -124,9 +124,8 @@ impl InnerProductArgPC {
 //@end
 }
 
-pub uninterp spec fn scp_coeffs(u: Seq<FS>) -> Seq<FS>;   // coefficient vector of h(X) = prod (1 + u_i X^(2^(k-i)))  [compute_coeffs is outside the verified text]
 impl SuccinctCheckPolynomial {
-    #[verifier::external_body] pub fn compute_coeffs(&self) -> (r: Vec<Fr>) ensures fviews(r@) == scp_coeffs(fviews(self.0@)) { unimplemented!() }
+//@stub from=ipa_coeffs.rs id=ipa.SuccinctCheckPolynomial.compute_coeffs vis=pub
 }
 pub struct IpaPC;
 impl IpaPC {
